@@ -20,7 +20,7 @@ TargetKinds == {"local", "aux1", "aux2", "aux3", "trans", "selfrec", "mutual", "
 Shapes      == {"prim", "object", "arrayref", "tuple", "allof", "map", "nested", "ptrarray", "ref"}
 HolderKinds == {"prop", "items", "tuple", "addprops", "additems", "allof", "alias", "opbody", "pathbody",
                 "code", "default", "sharedparam", "sharedresp", "nested", "opnested", "opitems",
-                "auxresp", "auxparam", "auxpathitem", "unusedparam", "unusedresp", "unusedalias", "casesiblings",
+                "auxresp", "auxparam", "auxpathitem", "unusedparam", "unusedresp", "unusedalias", "casesiblings", "pathbodyinline",
                 "patprop", "anyof", "oneof", "not", "nesteddefs"}
 AuxHolders  == {"auxresp", "auxparam", "auxpathitem"}
 SecondKinds == {"none", "code", "prop2", "same"}
@@ -157,6 +157,10 @@ Holder(h, REF) ==
     [] h = "casesiblings" -> inDef(ObjP([N_9 |-> ObjP([N_11 |-> REF]), C_9 |-> ObjP([N_10 |-> Str])]))
     [] h = "opbody"   -> inOp(PathItemWith([post |-> Op([parameters |-> ListOf(<<BodyParam(REF)>>), responses |-> OkResponses])]))
     [] h = "pathbody" -> inOp(PathItemWith([parameters |-> ListOf(<<BodyParam(REF)>>), put |-> Op([responses |-> OkResponses])]))
+    \* an INLINE complex schema in a path-level body parameter, under a path whose string is a prefix of another path's (X_1 = P_1 + suffix,
+    \* bound by the harness) with operations of the same methods: full flattening names the schema once per operation it attributes to the path
+    [] h = "pathbodyinline" -> inOp(PathItemWith([parameters |-> ListOf(<<BodyParam(ObjP([N_9 |-> REF, N_10 |-> Str]))>>),
+                                                  put |-> OpId("putone", [responses |-> OkResponses]), post |-> OpId("postone", [responses |-> OkResponses])]))
     [] h = "code"     -> inOp(PathItemWith([get |-> Op([responses |-> Mk(<<>>, ("200" :> Resp([schema |-> REF])))])]))
     [] h = "default"  -> inOp(PathItemWith([delete |-> Op([responses |-> Mk(<<>>, [default |-> Resp([schema |-> REF])])])]))
     [] h = "opnested" -> inOp(PathItemWith([patch |-> Op([responses |-> Mk(<<>>, ("201" :> Resp([schema |-> ObjP([N_9 |-> REF, N_10 |-> Str])])))])]))
@@ -223,7 +227,11 @@ Assemble(t, s, h, h2, c) ==
       dia    == IF t = "diamond"
                 THEN ("P_4" :> PathItemWith([get |-> OpId("fourth", [responses |-> Mk(<<>>, ("200" :> Resp([schema |-> RefTo(<<"aux1", "definitions", "N_2">>)])))])]))
                 ELSE <<>>
-      paths  == ("P_1" :> H.path) @@ S2.path @@ C.path @@ dia
+      xp     == IF h = "pathbodyinline"
+                THEN ("X_1" :> PathItemWith([put |-> OpId("puttwo", [responses |-> OkResponses]), post |-> OpId("posttwo", [responses |-> OkResponses]),
+                                             get |-> OpId("gettwo", [responses |-> OkResponses])]))
+                ELSE <<>>
+      paths  == ("P_1" :> H.path) @@ S2.path @@ C.path @@ dia @@ xp
       extra  == (IF DOMAIN params = {} THEN <<>> ELSE [parameters |-> Mk(<<>>, params)]) @@
                 (IF DOMAIN resps = {} THEN <<>> ELSE [responses |-> Mk(<<>>, resps)])
       root   == [Skeleton EXCEPT !.ch = ([paths |-> Mk(<<>>, paths), definitions |-> Mk(<<>>, defs)] @@ extra) @@ @]
